@@ -176,3 +176,94 @@ def count_transitions(body):
             if isinstance(x, tuple) and (not x or isinstance(x[0], tuple)):
                 n += count_transitions(x)
     return n
+
+
+BARE_ATOMS = ["tick", "ret", "rej", "break", "cont", "err", "empty", "assert"]
+BARE_CONDS = ["c0", "c1", "cin"]
+
+
+def make_bare_program(body, tail="approve"):
+    """no leading store: the body's first statement is the routine's first statement"""
+    main = ["Seq"] + [_stmt(s) for s in body]
+    if tail == "approve":
+        main.append(["Approve"])
+    else:
+        main.append(["Int", 1])
+    return {"mode": "A", "vars": {"ctr": "u", "i": "u"}, "subs": {}, "main": main}
+
+
+def _sub_stmt(s):
+    t = _stmt(s)
+    return _retv_to_return(t)
+
+
+def _retv_to_return(t):
+    if isinstance(t, list):
+        if t and t[0] == "Exit":
+            return ["Return"]
+        return [_retv_to_return(x) for x in t]
+    return t
+
+
+def make_sub_program(body, bare=False, ret="none"):
+    """the body runs inside a subroutine f(); main = Seq(f(), Approve()) or Return(f())"""
+    stmts = [_sub_stmt(s) for s in body]
+    if not bare:
+        stmts = [["Store", "ctr", ["Int", 0]]] + stmts
+    if ret == "u":
+        stmts.append(["Return", ["Add", ["Load", "ctr"], ["Int", 1]]] if not bare else ["Return", ["Int", 1]])
+        main = ["Exit", ["Call", "f"]]
+    else:
+        main = ["Seq", ["Call", "f"], ["Approve"]]
+    sub = {"params": [], "ret": ret, "body": ["Seq"] + stmts, "locals": ["ctr", "i"], "init_locals": False}
+    return {"mode": "A", "vars": {}, "subs": {"f": sub}, "main": main}
+
+
+def has_dead_code(body):
+    """a statement follows Return/Approve/Reject/Break/Continue/Err in the same sequence"""
+    for idx, s in enumerate(body):
+        if s[0] in ("ret", "rej", "retv", "break", "cont", "err") and idx != len(body) - 1:
+            return True
+        for x in s[1:]:
+            if isinstance(x, tuple) and x and isinstance(x[0], tuple) and has_dead_code(x):
+                return True
+    return False
+
+
+def always_exits(body):
+    """every path through the sequence ends in a return/err/break/continue (so what follows is dead)"""
+    for s in body:
+        if s[0] in ("ret", "rej", "retv", "break", "cont", "err"):
+            return True
+        if s[0] == "ifelse" and always_exits(s[2]) and always_exits(s[3]):
+            return True
+        if s[0] == "ifelif" and always_exits(s[2]) and always_exits(s[3]) and always_exits(s[4]):
+            return True
+        if s[0] == "cond2" and always_exits(s[2]) and always_exits(s[3]):
+            return True
+    return False
+
+
+def has_unreachable(body, tail_follows=True):
+    """conservative syntactic test: some statement (or the program tail) can never execute"""
+    for idx, s in enumerate(body):
+        last = idx == len(body) - 1
+        rest_follows = (not last) or tail_follows
+        if rest_follows and always_exits((s,)):
+            return True
+        if s[0] in ("if", "while"):
+            subs = [s[2]]
+        elif s[0] == "ifelse":
+            subs = [s[2], s[3]]
+        elif s[0] == "ifelif":
+            subs = [s[2], s[3], s[4]]
+        elif s[0] == "cond2":
+            subs = [s[2], s[3]]
+        elif s[0] == "for":
+            subs = [s[1]]
+        else:
+            subs = []
+        for b in subs:
+            if has_unreachable(b, tail_follows=False):
+                return True
+    return False
